@@ -17,7 +17,7 @@ Your task: produce TWO independent, realistic source changes (bugs) to the libra
 How to run things (no network; everything is installed):
   - Python: /venv/bin/python (3.12, numpy/scipy/sklearn installed). The venv has an editable install of ANOTHER checkout, so always run with the worktree first on the path:  cd /tmp/wt_{pid} && PYTHONPATH=/tmp/wt_{pid} /venv/bin/python your_script.py   and make your script print reservoirpy.__file__ once to be sure it is /tmp/wt_{pid}/reservoirpy/...
   - Test suite (about 1-2 minutes):  cd /tmp/wt_{pid} && PYTHONPATH=/tmp/wt_{pid} /venv/bin/python -m pytest -q -p no:cacheprovider --timeout=900 reservoirpy 2>&1 | tail -8
-    On the unmodified tree exactly 392 tests pass and 5 fail (the 5 failures are environment incompatibilities: test_japanese_vowels needs the network, 2 ScikitLearnNode multi-output tests, 2 mat_gen tests hitting scipy ARPACK; ignore them). With your change the same 392 must still pass and the same 5 fail.
+    On the unmodified tree exactly 393 tests pass and 4 fail (the 4 failures are environment incompatibilities: test_japanese_vowels needs the network, 2 ScikitLearnNode tests, 1 mat_gen test hitting scipy ARPACK directly; ignore them). With your change the same 393 must still pass and the same 4 fail.
   - Call reservoirpy.verbosity(0) in scripts to silence progress bars.
 
 For each of the two changes (call them A and B) deliver, in /tmp/seeded_out/{pid}/A/ and /tmp/seeded_out/{pid}/B/:
